@@ -73,6 +73,26 @@ func toBytes(is []int) []byte {
 func runVector(rep *vh.Report) {
 	cases := readCases[vecCase](rep)
 	rep.Rule = "vectors containing a NaN, a signed zero, a denormal or the all-ones word; byte strings with a non-printable byte; JSON trees with an aggregate or an escaped string"
+	// The helpers return values: a result that was right when it was returned must still be right after the helpers were
+	// called again (a result that aliases a buffer the helper recycles changes under the caller's hands). Every correct
+	// result is kept and compared once more after all cases have run.
+	type kept struct {
+		c    *vecCase
+		kind string
+		got  string
+		want string
+	}
+	var held []kept
+	defer func() {
+		seen := map[string]bool{}
+		for _, h := range held {
+			if h.got != h.want && !seen[h.kind] {
+				seen[h.kind] = true
+				rep.Violate(h.kind+" diff=result-changed-after-later-calls",
+					fmt.Sprintf("a result that equalled the specification when it was returned reads %q after later calls of the helper, the specification says %q", clipN(h.got, 120), clipN(h.want, 120)), h.c)
+			}
+		}
+	}()
 	for i := range cases {
 		c := &cases[i]
 		rep.Evaluations++
@@ -102,6 +122,9 @@ func runVector(rep *vh.Report) {
 			}
 			if !bytes.Equal([]byte(enc), want) {
 				rep.Violate("vector kind=v32 diff=encode", fmt.Sprintf("VectorString32(bits %08x) = % x, the specification packs % x", bits, []byte(enc), want), c)
+			}
+			if bytes.Equal([]byte(enc), want) {
+				held = append(held, kept{c, "vector kind=v32", enc, string(want)})
 			}
 			if !sameBits32(dec, bits) {
 				rep.Violate("vector kind=v32 diff=decode", fmt.Sprintf("ToVector32(% x) has bits %08x, the specification unpacks %08x", want, bitsOf32(dec), bits), c)
@@ -136,6 +159,9 @@ func runVector(rep *vh.Report) {
 			}
 			if !bytes.Equal([]byte(enc), want) {
 				rep.Violate("vector kind=v64 diff=encode", fmt.Sprintf("VectorString64(bits %016x) = % x, the specification packs % x", bits, []byte(enc), want), c)
+			}
+			if bytes.Equal([]byte(enc), want) {
+				held = append(held, kept{c, "vector kind=v64", enc, string(want)})
 			}
 			if !sameBits64(dec, bits) {
 				rep.Violate("vector kind=v64 diff=decode", fmt.Sprintf("ToVector64(% x) has bits %016x, the specification unpacks %016x", want, bitsOf64(dec), bits), c)
@@ -177,6 +203,9 @@ func runVector(rep *vh.Report) {
 			}
 			if got != c.Text {
 				rep.Violate("json diff=specification", fmt.Sprintf("JSON(%#v) = %s, the specification serialises %s", x, got, c.Text), c)
+			}
+			if got == c.Text {
+				held = append(held, kept{c, "json", got, c.Text})
 			}
 			if got != string(std) {
 				rep.Violate("json diff=encoding/json", fmt.Sprintf("JSON(%#v) = %s, encoding/json gives %s", x, got, std), c)
@@ -228,4 +257,11 @@ func sameBits64(v []float64, bits []uint64) bool {
 		}
 	}
 	return true
+}
+
+func clipN(s string, n int) string {
+	if len(s) > n {
+		return s[:n] + "..."
+	}
+	return s
 }
